@@ -28,8 +28,13 @@ from .senscommon import (close_arr, ev_frac, fmat, fvec, layout, ref_solve, rich
                          to_float, worst)
 
 PROP = "C13"
-LEAN = {"module": "Pygom.Props.C13",
-        "required": ["Pygom.C13.sens_layout", "Pygom.C13.sens_layout_by_state", "Pygom.C13.sensIV_layout",
+LEAN = {"module": "Pygom.Props.C13", "extra_modules": ["Pygom.Props.C13Link"],
+        "required": ["Pygom.C13Link.diff_comm", "Pygom.C13Link.envOf_update", "Pygom.C13Link.envOf_update_ge",
+                     "Pygom.C13Link.aug_jacobian_is_derivative_expr", "Pygom.C13Link.aug_jacobianIV_is_derivative_expr",
+                     "Pygom.C13Link.aug_jacobian_by_state_repaired_is_derivative_expr",
+                     "Pygom.C13Link.aug_jacobian_is_derivative_expr_at", "Pygom.C13Link.aug_jacobianIV_is_derivative_expr_at",
+                     "Pygom.C13Link.aug_jacobian_by_state_repaired_is_derivative_expr_at",
+                     "Pygom.C13.sens_layout", "Pygom.C13.sens_layout_by_state", "Pygom.C13.sensIV_layout",
                      "Pygom.C13.aug_jacobian_is_derivative", "Pygom.C13.aug_jacobianIV_is_derivative",
                      "Pygom.C13.aug_jacobian_by_state_repaired_is_derivative",
                      "Pygom.C13.aug_jacobian_by_state_counterexample", "Pygom.C13.aug_jacobian_by_state_as_coded_refuted",
